@@ -117,6 +117,57 @@ def expand_quantifiers(f, scope):
     return f
 
 
+def _ground_solver(pc, goal, timeout_s):
+    """solver over pc (and not goal) with the background injection axioms instantiated on the
+    ground terms that occur; None if pc itself contains quantifiers"""
+    exprs = [p for p in pc if p is not True and p is not None]
+    if any(_has_quantifier(e) for e in exprs) or (goal is not None and _has_quantifier(goal)):
+        return None
+    s = z3.Solver()
+    s.set("timeout", int(timeout_s * 1000))
+    for b in EN.BACKGROUND:
+        s.add(b)
+    allx = list(exprs)
+    if goal is not None:
+        allx.append(z3.Not(goal))
+    for e in allx:
+        s.add(e)
+    seen = set()
+
+    def inst(t):
+        if t.get_id() in seen:
+            return
+        seen.add(t.get_id())
+        if z3.is_app(t):
+            nm = t.decl().name()
+            if nm == "u_of_str":
+                s.add(EN.str_U(t) == t.arg(0))
+            elif nm == "u_of_int":
+                s.add(EN.int_U(t) == t.arg(0))
+            elif nm == "Path":
+                s.add(EN.unPath_U(t) == t.arg(0))
+            for c in t.children():
+                inst(c)
+
+    for e in allx:
+        inst(e)
+    return s
+
+
+def _has_quantifier(e):
+    seen, stack = set(), [e]
+    while stack:
+        t = stack.pop()
+        if t.get_id() in seen:
+            continue
+        seen.add(t.get_id())
+        if z3.is_quantifier(t):
+            return True
+        if z3.is_app(t):
+            stack.extend(t.children())
+    return False
+
+
 def discharge(pc, goal, timeout_s=10.0, len_consts=()):
     """-> (status, backend, time_s, model|None)   status: discharged|refuted|unknown"""
     t0 = time.time()
@@ -136,6 +187,11 @@ def discharge(pc, goal, timeout_s=10.0, len_consts=()):
             return "discharged", "z3(infeasible path)", time.time() - t0, None
         if r == z3.sat:
             return "refuted", "z3", time.time() - t0, s.model()
+        # the quantified injection axioms can make z3 answer `unknown` on a satisfiable
+        # path condition: retry with those axioms instantiated on the ground terms only
+        s2 = _ground_solver(pc, None, timeout_s)
+        if s2 is not None and s2.check() == z3.sat:
+            return "refuted", "z3(ground axioms)", time.time() - t0, s2.model()
         return "unknown", "z3", time.time() - t0, None
     goal = lift(goal)
     # fast lane: E-matching only (no MBQI) — decides most valid VCs in milliseconds
